@@ -3,7 +3,8 @@
    of integer code points. *)
 From Coq Require Import String.
 From V Require Import Base.Prelude Base.Ints Base.Disp Model.Mnemonic Model.Pbkdf2 Spec.Pbkdf2S
-  Generated.Wordlists.
+  Generated.Wordlists Model.Pbkdf2Obj Model.MnemonicApi Spec.Bip39S.
+From V Require Model.Pecc Model.Hd Model.HdStr Model.MnemonicHd.
 Open Scope string_scope.
 Open Scope Z_scope.
 
@@ -18,6 +19,30 @@ Definition prf_of (H : oracle) (alg : Z) : bytes -> bytes -> bytes :=
 Definition hlen_of (alg : Z) : Z := if alg =? 0 then 64 else if alg =? 1 then 32 else 20.
 
 Definition small (z : Z) : bool := z <? 1000000.
+
+(* optional bytes argument: () = None *)
+Definition vopt_b (v : val) : option (option bytes) :=
+  match v with VL [] => Some None | VB b => Some (Some b) | _ => None end.
+
+(* one call on a PBKDF2 object: (0 n) read, (1 n) hexread, (2) close *)
+Definition get_pop (v : val) : option pop :=
+  match v with
+  | VL [VI 0; VI n] => if small n then Some (PRead n) else None
+  | VL [VI 1; VI n] => if small n then Some (PHexRead n) else None
+  | VL [VI 2] => Some PClose
+  | _ => None
+  end.
+Fixpoint get_pops (l : list val) : option (list pop) :=
+  match l with
+  | [] => Some []
+  | v :: r => match get_pop v, get_pops r with Some p, Some t => Some (p :: t) | _, _ => None end
+  end.
+
+(* HDPrivateKey fields and the two strings *)
+Definition vhd (p : Hd.hdpriv * list Z * list Z) : val :=
+  let '(k, xprv, xpub) := p in
+  VL [VI (Hd.sk k); VB (Hd.sk_cc k); VI (Hd.sk_depth k); VB (Hd.sk_pfp k); VI (Hd.sk_num k);
+      VI (Hd.sk_net k); VB (Hd.sk_ver k); VB (Hd.sk_pubver k); VB xprv; VB xpub].
 
 Definition dispatch (H : oracle) (fn : list Z) (args : list val) : val :=
   if fn_is "split" fn then
@@ -83,5 +108,73 @@ Definition dispatch (H : oracle) (fn : list Z) (args : list val) : val :=
         | Some s => vres (fun p => VL [VB (fst (fst p)); VI (snd (fst p)); VB (snd p)])
                          (from_mnemonic (o_sha256 H) (o_hmac_sha512 H) bip39_words s pw)
         | None => bad_args end
+    | _ => bad_args end
+  else if fn_is "spec_indices" fn then
+    match args with
+    | [VB e] => if entropy_size_ok e then VL (map VI (bip39_indices (o_sha256 H) e)) else VErr
+    | _ => bad_args end
+  else if fn_is "spec_sentence" fn then
+    match args with
+    | [VB e] => if entropy_size_ok e then VB (bip39_sentence (o_sha256 H) bip39_words e) else VErr
+    | _ => bad_args end
+  else if fn_is "pbkdf2_session" fn then
+    match args with
+    | [VI alg; VB pw; VB salt; VI c; VL ops] =>
+        match get_pops ops with
+        | Some l =>
+            if small c then vres (fun rs => VL (map vres_b rs)) (po_session (prf_of H alg) pw salt c l)
+            else bad_args
+        | None => bad_args end
+    | _ => bad_args end
+  else if fn_is "pb_read_state" fn then
+    (* read(n) on an object whose private buffer / block counter were set by hand: reaches the
+       "derived key too long" branch, which no affordable sequence of public calls reaches *)
+    match args with
+    | [VI alg; VB pw; VB salt; VI c; VB buf; VI blk; VI n] =>
+        if small c && small n then
+          vres (fun p : bytes * pstate => VL [VB (fst p); VB (p_buf (snd p)); VI (p_block (snd p))])
+               (pb_read (prf_of H alg)
+                  {| p_pass := pw; p_salt := salt; p_iter := c; p_buf := buf; p_block := blk |} n)
+        else bad_args
+    | _ => bad_args end
+  else if fn_is "utf8" fn then
+    match args with
+    | [t] => match arg_text t with Some s => vres_b (utf8_encode s) | None => bad_args end
+    | _ => bad_args end
+  else if fn_is "kdf_str" fn then
+    match args with
+    | [t; VB salt] =>
+        match arg_text t with
+        | Some s => vres_b (hmac_sha512_kdf_str (o_hmac_sha512 H) s salt)
+        | None => bad_args end
+    | _ => bad_args end
+  else if fn_is "seed_utf8" fn then
+    match args with
+    | [t; VB pw] =>
+        match arg_text t with
+        | Some s => vres_b (mnemonic_seed_utf8 (o_sha256 H) (o_hmac_sha512 H) bip39_words s pw)
+        | None => bad_args end
+    | _ => bad_args end
+  else if fn_is "wl_getitem_int" fn then
+    match args with [VI w; VI i] => vres_b (wl_getitem_int (wl_of w) i) | _ => bad_args end
+  else if fn_is "wl_contains" fn then
+    match args with
+    | [VI w; t] => match arg_text t with Some s => vbool (wl_contains (wl_of w) s) | None => bad_args end
+    | _ => bad_args end
+  else if fn_is "hd_from_mnemonic" fn then
+    match args with
+    | [t; VB pw; VB path; VI net; v1; v2] =>
+        match arg_text t, vopt_b v1, vopt_b v2 with
+        | Some s, Some ver, Some pv =>
+            vres vhd (MnemonicHd.hd_from_mnemonic_strings Pecc.secp256k1 (o_sha256 H) (o_hmac_sha512 H)
+                        (o_hash160 H) (o_hash256 H) bip39_words s pw path net ver pv)
+        | _, _, _ => bad_args end
+    | _ => bad_args end
+  else if fn_is "hd_generate" fn then
+    match args with
+    | [VB pw; VI extra; VI rnd; VI t; VI net] =>
+        vres (fun p => VL [VB (fst p); vres_b (HdStr.xprv_str (o_hash256 H) (snd p) None)])
+             (MnemonicHd.hd_generate Pecc.secp256k1 (o_sha256 H) (o_hmac_sha512 H) (o_hash160 H)
+                bip39_words pw extra rnd t net None None)
     | _ => bad_args end
   else bad_args.
